@@ -1,60 +1,894 @@
+// c16 — correspondence harness for property C16 (the block store returns exactly the blocks that were stored).
+//
+// Three parties per history: the real chain.BlockDB on a temp dir, the Lean model (oracle_c16), and a plain
+// Go map (the property's own predicate: what was stored must come back, nothing else may be listed).
+// Plus the snappy tie: snappy.Encode/Decode (amd64 assembly in this binary, the pure-Go encode_other.go /
+// decode_other.go in a second binary built with -tags noasm) against Model/Snappy.lean.
 package main
 
 import (
+	"bytes"
+	"encoding/hex"
+	"encoding/json"
+	"errors"
+	"flag"
 	"fmt"
+	"io"
 	"os"
+	"os/exec"
+	"path/filepath"
+	"sort"
+	"strings"
+	"syscall"
+	"time"
 
 	"github.com/piotrnar/gocoin/lib/btc"
 	"github.com/piotrnar/gocoin/lib/chain"
+	"github.com/piotrnar/gocoin/lib/others/snappy"
+
+	"verif/vlib"
+	"verif/vtrans"
 )
 
-func mk(seed byte, n int) *btc.Block {
-	raw := make([]byte, n)
-	for i := range raw {
-		raw[i] = seed + byte(i%7)
-	}
-	bl := new(btc.Block)
-	bl.Raw = raw
-	bl.Hash = btc.NewSha2Hash(raw[:80])
-	bl.TxCount = 1
-	return bl
+type failure struct {
+	Kind string `json:"kind"` // prop | tie
+	Key  string `json:"key"`
+	What string `json:"what"`
 }
 
-func open(dir string, o *chain.BlockDBOpts) *chain.BlockDB {
-	db := chain.NewBlockDBExt(dir, o)
-	db.LoadBlockIndex(nil, func(ch *chain.Chain, hash, hdr []byte, height, blen, txs uint32) {
-		fmt.Printf("  walk %x h=%d blen=%d txs=%d\n", hash[:4], height, blen, txs)
+type refEnt struct {
+	data    []byte
+	trusted bool
+	tainted bool // was marked invalid at some time: no further claims about this hash
+	spec    BlockSpec
+}
+
+type runner struct {
+	r *vlib.Run
+	o *vlib.Oracle
+}
+
+var realStdout = os.Stdout
+
+func fnv(b []byte) uint64 {
+	h := uint64(0xcbf29ce484222325)
+	for _, x := range b {
+		h = (h ^ uint64(x)) * 0x100000001b3
+	}
+	return h
+}
+
+func errKind(e error) string {
+	if e == nil {
+		return ""
+	}
+	s := e.Error()
+	switch {
+	case s == "block not in the index":
+		return "notinindex"
+	case strings.HasPrefix(s, "block not written yet"):
+		return "notwritten"
+	case s == "block purged from disk":
+		return "purged"
+	case strings.HasPrefix(s, "snappy"):
+		return "snappy"
+	case errors.Is(e, io.ErrUnexpectedEOF) || errors.Is(e, io.EOF):
+		return "shortread"
+	}
+	var pe *os.PathError
+	if errors.As(e, &pe) {
+		if pe.Op == "open" {
+			return "nofile"
+		}
+		return "fileerr"
+	}
+	return "other:" + s
+}
+
+func b01(b bool) string {
+	if b {
+		return "1"
+	}
+	return "0"
+}
+
+// dirFiles lists the store's directory in the oracle's `files` format.
+func dirFiles(dir string) string {
+	type ent struct {
+		cls string
+		idx uint64
+		s   string
+	}
+	var es []ent
+	scan := func(d, cls string) {
+		l, _ := os.ReadDir(d)
+		for _, e := range l {
+			if e.IsDir() {
+				continue
+			}
+			b, _ := os.ReadFile(filepath.Join(d, e.Name()))
+			n := e.Name()
+			var idx uint64
+			var ok bool
+			switch {
+			case n == "blockchain.new" && cls == "dat":
+				es = append(es, ent{"idx", 0, fmt.Sprintf("idx:%d:%d", len(b), fnv(b))})
+				continue
+			case n == "blockchain.dat":
+				idx, ok = 0, true
+			case strings.HasPrefix(n, "blockchain-") && strings.HasSuffix(n, ".dat"):
+				_, e := fmt.Sscanf(n, "blockchain-%08x.dat", &idx)
+				ok = e == nil
+			case strings.HasPrefix(n, "bl") && strings.HasSuffix(n, ".dat"):
+				_, e := fmt.Sscanf(n, "bl%08d.dat", &idx)
+				ok = e == nil
+			}
+			if !ok {
+				es = append(es, ent{"zz", 0, "unexpected:" + cls + ":" + n})
+				continue
+			}
+			es = append(es, ent{cls, idx, fmt.Sprintf("%s%d:%d:%d", cls, idx, len(b), fnv(b))})
+		}
+	}
+	scan(dir, "dat")
+	scan(filepath.Join(dir, "oldat"), "old")
+	sort.Slice(es, func(i, j int) bool {
+		if es[i].cls != es[j].cls {
+			order := map[string]int{"idx": 0, "dat": 1, "old": 2, "zz": 3}
+			return order[es[i].cls] < order[es[j].cls]
+		}
+		return es[i].idx < es[j].idx
 	})
-	return db
+	out := []string{"files"}
+	for _, e := range es {
+		out = append(out, e.s)
+	}
+	return strings.Join(out, " ")
+}
+
+func short(s string) string {
+	if len(s) > 160 {
+		return s[:80] + "…" + s[len(s)-60:] + fmt.Sprintf(" (%d chars)", len(s))
+	}
+	return s
+}
+
+// runHistory executes one history on the three parties; returns the failures seen (first of each key).
+func (x *runner) runHistory(h *History, count bool) (fails []failure) {
+	r := x.r
+	seen := map[string]bool{}
+	fail := func(kind, key, what string) {
+		if !seen[kind+key] {
+			seen[kind+key] = true
+			fails = append(fails, failure{kind, key, what})
+		}
+	}
+	hit := func(k string) {
+		if count {
+			r.Hit(k)
+		}
+	}
+	dir, err := os.MkdirTemp("", "vc16")
+	if err != nil {
+		fmt.Fprintln(os.Stderr, "mkdirtemp:", err)
+		os.Exit(3)
+	}
+	defer os.RemoveAll(dir)
+	if rep := x.o.MustAsk("reset"); rep != "ok" {
+		fail("tie", "oracle-reset", rep)
+		return
+	}
+	datas := make([][]byte, len(h.Blocks))
+	hashes := make([][32]byte, len(h.Blocks))
+	for i, s := range h.Blocks {
+		datas[i] = s.Data()
+		hashes[i] = sha2(datas[i][:80])
+	}
+	unknown := sha2([]byte("a hash that was never added"))
+	hashOf := func(b int) [32]byte {
+		if b < 0 || b >= len(hashes) {
+			return unknown
+		}
+		return hashes[b]
+	}
+	ref := map[[32]byte]*refEnt{}
+	var db *chain.BlockDB
+	var cur Opts
+	retention := false // some configuration of this history lets data files fall out of retention
+	rollover := false
+
+	for opi, op := range h.Ops {
+		hs := hashOf(op.B)
+		hx := hex.EncodeToString(hs[:])
+		var line, real string
+		panicked := false
+		call := func(f func()) {
+			defer func() {
+				if e := recover(); e != nil {
+					panicked = true
+				}
+			}()
+			f()
+		}
+		where := fmt.Sprintf("op %d (%s b=%d)", opi, op.Op, op.B)
+		if db == nil && op.Op != "reopen" {
+			continue // malformed history (e.g. after shrinking): skip operations on a closed store
+		}
+		hit("op:" + op.Op)
+		switch op.Op {
+		case "reopen":
+			if db != nil || op.Opts == nil {
+				continue
+			}
+			cur = *op.Opts
+			if cur.MaxFile != 0 {
+				rollover = true
+			}
+			if cur.Keep != 0 && !cur.Backup {
+				retention = true
+			}
+			line = fmt.Sprintf("reopen %d %d %d %s %s", cur.MaxCached, cur.MaxFile, cur.Keep, b01(cur.Backup), b01(cur.Compress))
+			var walked []string
+			type wrec struct {
+				hash              [32]byte
+				height, blen, txs uint32
+			}
+			var wl []wrec
+			call(func() {
+				db = chain.NewBlockDBExt(dir, &chain.BlockDBOpts{MaxCachedBlocks: cur.MaxCached, MaxDataFileSize: cur.MaxFile,
+					DataFilesKeep: cur.Keep, DataFilesBackup: cur.Backup, CompressOnDisk: cur.Compress})
+				db.LoadBlockIndex(nil, func(ch *chain.Chain, hash, hdr []byte, height, blen, txs uint32) {
+					walked = append(walked, fmt.Sprintf("%x,%x,%d,%d,%d", hash, hdr, height, blen, txs))
+					var w wrec
+					copy(w.hash[:], hash)
+					w.height, w.blen, w.txs = height, blen, txs
+					wl = append(wl, w)
+				})
+			})
+			real = strings.Join(append([]string{"walk"}, walked...), " ")
+			if panicked {
+				real = "panic"
+				db = nil
+			}
+			// property: the index lists exactly the stored, non-invalid blocks, each once, with their fields
+			listed := map[[32]byte]int{}
+			for _, w := range wl {
+				listed[w.hash]++
+				e := ref[w.hash]
+				if e == nil {
+					fail("prop", "reopen-lists-unknown-block", fmt.Sprintf("%s: LoadBlockIndex lists %x which was never added", where, w.hash[:8]))
+					continue
+				}
+				if listed[w.hash] > 1 && !e.tainted {
+					fail("prop", "reopen-lists-twice", fmt.Sprintf("%s: %x listed twice", where, w.hash[:8]))
+				}
+				if w.height != e.spec.Height || int(w.blen) != len(e.data) || w.txs != e.spec.TxCount {
+					fail("prop", "reopen-wrong-fields", fmt.Sprintf("%s: %x listed with height=%d size=%d txs=%d, stored %d/%d/%d",
+						where, w.hash[:8], w.height, w.blen, w.txs, e.spec.Height, len(e.data), e.spec.TxCount))
+				}
+			}
+			for hh, e := range ref {
+				if !e.tainted && listed[hh] == 0 {
+					fail("prop", "reopen-lost-block", fmt.Sprintf("%s: stored block %x (height %d) is not listed after the restart", where, hh[:8], e.spec.Height))
+				}
+			}
+		case "add":
+			if op.B < 0 || op.B >= len(datas) {
+				continue
+			}
+			bl := new(btc.Block)
+			bl.Raw = datas[op.B]
+			bl.Hash = btc.NewUint256(hs[:])
+			bl.TxCount = int(h.Blocks[op.B].TxCount)
+			if op.Flag {
+				bl.Trusted.Set()
+			}
+			line = fmt.Sprintf("add %s %d %d %s %s", hx, h.Blocks[op.B].Height, h.Blocks[op.B].TxCount, b01(op.Flag), vlib.Hex(datas[op.B]))
+			call(func() { db.BlockAdd(h.Blocks[op.B].Height, bl) })
+			real = "ok"
+			if e := ref[hs]; e == nil {
+				ref[hs] = &refEnt{data: datas[op.B], trusted: op.Flag, spec: h.Blocks[op.B]}
+			} else if op.Flag {
+				e.trusted = true
+			}
+		case "get":
+			line = "get " + hx
+			var bl []byte
+			var tr bool
+			var e error
+			call(func() { bl, tr, e = db.BlockGet(btc.NewUint256(hs[:])) })
+			if e != nil {
+				real = "err " + errKind(e) + " " + b01(tr)
+				hit("get:" + errKind(e))
+			} else {
+				real = "data " + b01(tr) + " " + vlib.Hex(bl)
+				hit("get:ok")
+			}
+			if re := ref[hs]; re == nil {
+				if e == nil {
+					fail("prop", "get-unknown-returns-data", where+": BlockGet of a hash that was never added returned data")
+				}
+			} else if !re.tainted && !panicked {
+				if e != nil {
+					if !(retention && rollover && errKind(e) == "nofile") {
+						fail("prop", "get-stored-fails", fmt.Sprintf("%s: BlockGet of stored block %x fails: %v", where, hs[:8], e))
+					} else {
+						hit("get:out-of-retention")
+					}
+				} else {
+					if !bytes.Equal(bl, re.data) {
+						fail("prop", "get-wrong-bytes", fmt.Sprintf("%s: BlockGet of %x returns %d bytes that differ from the %d stored", where, hs[:8], len(bl), len(re.data)))
+					}
+					if tr != re.trusted {
+						fail("prop", "get-wrong-trusted", fmt.Sprintf("%s: BlockGet of %x returns trusted=%v, latest flag is %v", where, hs[:8], tr, re.trusted))
+					}
+				}
+			}
+		case "len":
+			line = "len " + hx + " " + b01(op.Flag)
+			var l uint32
+			var e error
+			call(func() { l, e = db.BlockLength(btc.NewUint256(hs[:]), op.Flag) })
+			if e != nil {
+				real = "lenerr"
+			} else {
+				real = fmt.Sprintf("len %d", l)
+			}
+			if re := ref[hs]; re != nil && !re.tainted && !panicked && op.Flag {
+				if e == nil && int(l) != len(re.data) {
+					fail("prop", "blocklength-wrong", fmt.Sprintf("%s: BlockLength(%x, decode_if_needed) = %d, stored block has %d bytes", where, hs[:8], l, len(re.data)))
+				}
+			}
+		case "trusted":
+			line = "trusted " + hx
+			call(func() { db.BlockTrusted(hs[:]) })
+			real = "ok"
+			if e := ref[hs]; e != nil {
+				e.trusted = true
+			}
+		case "invalid":
+			line = "invalid " + hx
+			call(func() { db.BlockInvalid(hs[:]) })
+			real = "ok"
+			if e := ref[hs]; e != nil {
+				e.tainted = true
+			}
+		case "idle":
+			line = "idle"
+			call(func() { db.Idle() })
+			real = "ok"
+		case "close":
+			line = "close"
+			call(func() { db.Close() })
+			real = "ok"
+		default:
+			continue
+		}
+		if panicked && real != "panic" {
+			real = "panic"
+		}
+		model := x.o.MustAsk(line)
+		if model == "bad-op" || model == "bad" {
+			fail("tie", "oracle-rejects-op", where+": the model does not cover this operation: "+short(line))
+			break
+		}
+		if model != real {
+			fail("tie", "out:"+op.Op, fmt.Sprintf("%s: real %q, model %q", where, short(real), short(model)))
+		} else if count {
+			r.TieOK()
+		}
+		if panicked {
+			hit("panic:" + op.Op)
+			// the real store holds db.mutex forever after this panic: the history ends here
+			db = nil
+			return
+		}
+		if op.Op == "close" {
+			db = nil
+			rf := dirFiles(dir)
+			mf := x.o.MustAsk("files")
+			if rf != mf {
+				fail("tie", "files-after-close", fmt.Sprintf("%s: directory %q, model %q", where, short(rf), short(mf)))
+			} else if count {
+				r.TieOK()
+			}
+		} else if db != nil {
+			db.VerifWaitDataFiles()
+			a, b, c, q, cc := db.VerifPositions()
+			rp := fmt.Sprintf("pos %d %d %d %d %d", a, b, c, q, cc)
+			mp := x.o.MustAsk("pos")
+			if rp != mp {
+				fail("tie", "positions", fmt.Sprintf("%s: real %q, model %q (maxidxfilepos maxdatfilepos maxdatfileidx queued cached)", where, rp, mp))
+			} else if count {
+				r.TieOK()
+			}
+			if c > 0 {
+				hit("state:rolled-over")
+			}
+			if q > 0 {
+				hit("state:writes-queued")
+			}
+		}
+	}
+	if db != nil {
+		func() {
+			defer func() { recover() }()
+			db.Close()
+		}()
+	}
+	return
+}
+
+// shrink removes operations while the same failure key is still reported.
+func (x *runner) shrink(h *History, key string) *History {
+	has := func(c *History) bool {
+		for _, f := range x.runHistory(c, false) {
+			if f.Key == key {
+				return true
+			}
+		}
+		return false
+	}
+	cur := h
+	budget := 150
+	for changed := true; changed && budget > 0; {
+		changed = false
+		for i := len(cur.Ops) - 1; i >= 1 && budget > 0; i-- {
+			c := &History{Name: cur.Name, Blocks: cur.Blocks}
+			c.Ops = append(append([]OpRec{}, cur.Ops[:i]...), cur.Ops[i+1:]...)
+			budget--
+			if has(c) {
+				cur = c
+				changed = true
+			}
+		}
+	}
+	return cur
+}
+
+func (x *runner) doHistory(h *History) {
+	r := x.r
+	fails := x.runHistory(h, true)
+	nb := 0
+	for _, b := range h.Blocks {
+		nb += b.Len
+	}
+	key := ""
+	if len(h.Ops) > 2 {
+		js, _ := json.Marshal(h)
+		key = string(js)
+	}
+	r.Eval("history", key)
+	if len(h.Ops) > 0 && h.Ops[0].Opts != nil {
+		o := h.Ops[0].Opts
+		r.Hit(fmt.Sprintf("opts:compress=%v", o.Compress))
+		r.Hit(fmt.Sprintf("opts:cache=%d", o.MaxCached))
+		r.Hit(fmt.Sprintf("opts:keep=%d,backup=%v", o.Keep, o.Backup))
+		if o.MaxFile == 0 {
+			r.Hit("opts:maxfile=0")
+		} else {
+			r.Hit("opts:maxfile>0")
+		}
+	}
+	for _, b := range h.Blocks {
+		switch {
+		case b.Len < 200:
+			r.Hit("blocksize:<200")
+		case b.Len < 65536:
+			r.Hit("blocksize:<64K")
+		case b.Len < 1<<20:
+			r.Hit("blocksize:<1M")
+		default:
+			r.Hit("blocksize:>=1M")
+		}
+		r.Hit("blockkind:" + b.Kind)
+	}
+	for _, f := range fails {
+		hh := h
+		if len(h.Ops) <= 80 && nb < 1<<20 {
+			hh = x.shrink(h, f.Key)
+		}
+		rep := map[string]interface{}{"history": hh}
+		if f.Kind == "prop" {
+			r.PropFail(f.Key, f.What, rep)
+		} else {
+			r.TieFail(f.Key, f.What, rep)
+		}
+	}
+}
+
+// ---------------------------------------------------------------------------------------------
+// snappy
+
+type snappyCase struct {
+	Name string `json:"name"`
+	Src  string `json:"src,omitempty"` // hex: input of Encode
+	Enc  string `json:"enc,omitempty"` // hex: input of Decode
+}
+
+func safeDecode(b []byte) (out []byte, ok bool) {
+	defer func() {
+		if e := recover(); e != nil {
+			out, ok = nil, false
+		}
+	}()
+	d, err := snappy.Decode(nil, b)
+	return d, err == nil
+}
+
+// snappyRoundTrip: Encode on the real code, the model's encoder, both decoders on both outputs.
+func snappyRoundTrip(o *vlib.Oracle, name string, src []byte, fail func(kind, key, what string, c snappyCase), ok func(), hit func(string)) {
+	c := snappyCase{Name: name, Src: hex.EncodeToString(src)}
+	var enc []byte
+	func() {
+		defer func() {
+			if e := recover(); e != nil {
+				fail("prop", "snappy-encode-panics", fmt.Sprintf("snappy.Encode panics on %d bytes (%s): %v", len(src), name, e), c)
+			}
+		}()
+		enc = snappy.Encode(nil, src)
+	}()
+	if enc == nil {
+		return
+	}
+	dec, dok := safeDecode(enc)
+	if !dok || !bytes.Equal(dec, src) {
+		fail("prop", "snappy-roundtrip", fmt.Sprintf("snappy.Decode(snappy.Encode(x)) != x for %d bytes (%s), ok=%v", len(src), name, dok), c)
+	}
+	menc := o.MustAsk("senc " + vlib.Hex(src))
+	if menc != "ok "+vlib.Hex(enc) {
+		fail("tie", "snappy-encode-output", fmt.Sprintf("snappy.Encode output differs from the model for %d bytes (%s): real %s model %s", len(src), name, short(vlib.Hex(enc)), short(menc)), c)
+	} else {
+		ok()
+	}
+	mdec := o.MustAsk("sdec " + vlib.Hex(enc))
+	if mdec != "ok "+vlib.Hex(src) {
+		fail("tie", "snappy-model-decode", fmt.Sprintf("model decode of the real encoder's output is not the source (%d bytes, %s): %s", len(src), name, short(mdec)), c)
+	} else {
+		ok()
+	}
+	if len(enc) < len(src) {
+		hit("snappy:compressed")
+	} else {
+		hit("snappy:not-compressed")
+	}
+}
+
+func snappyDecodeCase(o *vlib.Oracle, name string, enc []byte, fail func(kind, key, what string, c snappyCase), ok func(), hit func(string)) {
+	c := snappyCase{Name: name, Enc: hex.EncodeToString(enc)}
+	dec, dok := safeDecode(enc)
+	real := "err"
+	if dok {
+		real = "ok " + vlib.Hex(dec)
+		hit("sdec:ok")
+	} else {
+		hit("sdec:err")
+	}
+	m := o.MustAsk("sdec " + vlib.Hex(enc))
+	if m != real {
+		fail("tie", "snappy-decode", fmt.Sprintf("snappy.Decode differs from the model on %d bytes (%s): real %s model %s", len(enc), name, short(real), short(m)), c)
+	} else {
+		ok()
+	}
+}
+
+func snappySizes(thorough bool) []int {
+	var s []int
+	for i := 0; i <= 70; i++ {
+		s = append(s, i)
+	}
+	s = append(s, 255, 256, 257, 300, 1000, 2047, 2048, 2049, 4096, 16383, 16384, 16385, 65535-15, 65535, 65536, 65537, 65536+14, 65536+15, 65536+16, 65536+17, 65536+18, 131072, 131073, 200000)
+	if thorough {
+		s = append(s, 65536*3+5, 1<<20, 4000000)
+	}
+	return s
+}
+
+type childResult struct {
+	Evals int            `json:"evals"`
+	OK    int            `json:"ok"`
+	Hits  map[string]int `json:"hits"`
+	Fails []struct {
+		Kind, Key, What string
+		Case            snappyCase
+	} `json:"fails"`
+}
+
+// snappyStream runs the snappy tie; used by the parent (assembly) and by the noasm child (pure Go).
+func snappyStream(o *vlib.Oracle, g *vlib.Rng, thorough bool, nrand int, fail func(kind, key, what string, c snappyCase), ok func(), hit func(string), eval func(kind, key string)) {
+	for _, n := range snappySizes(thorough) {
+		for _, k := range []string{"rand", "zero", "rep", "text", "mixed", "far"} {
+			if n > 300000 && (k == "text" || k == "rep") {
+				continue
+			}
+			b := make([]byte, n)
+			genBody(g, b, k)
+			snappyRoundTrip(o, fmt.Sprintf("%s-%d", k, n), b, fail, ok, hit)
+			eval("snappy-roundtrip", fmt.Sprintf("%s-%d-%x", k, n, fnv(b)))
+		}
+	}
+	for i := 0; i < nrand; i++ {
+		n := g.Intn(3000)
+		if g.Chance(1, 10) {
+			n = 60000 + g.Intn(80000)
+		}
+		k := kinds[g.Intn(len(kinds))]
+		b := make([]byte, n)
+		genBody(g, b, k)
+		snappyRoundTrip(o, fmt.Sprintf("%s-%d", k, n), b, fail, ok, hit)
+		eval("snappy-roundtrip", fmt.Sprintf("%s-%d-%x", k, n, fnv(b)))
+		// malformed stream: mutate a valid encoding / truncate / random bytes
+		enc := snappy.Encode(nil, b)
+		if len(enc) > 4000 {
+			enc = enc[:4000]
+		}
+		m := append([]byte{}, enc...)
+		switch g.Intn(5) {
+		case 0:
+			if len(m) > 0 {
+				m[g.Intn(len(m))] ^= byte(1 << uint(g.Intn(8)))
+			}
+		case 1:
+			if len(m) > 0 {
+				m = m[:g.Intn(len(m))]
+			}
+		case 2:
+			m = g.Bytes(g.Intn(40))
+		case 3:
+			if len(m) > 0 {
+				m[0] = byte(g.U64()) // length header
+			}
+		default:
+			if len(m) > 2 {
+				p := g.Intn(len(m))
+				m = append(append(append([]byte{}, m[:p]...), g.Bytes(1+g.Intn(4))...), m[p:]...)
+			}
+		}
+		snappyDecodeCase(o, "mutated", m, fail, ok, hit)
+		eval("snappy-decode-malformed", fmt.Sprintf("%x", m))
+	}
+}
+
+var snappyCorpusDec = []string{
+	"", "00", "01", "0100", "010041", "0500", "03080102", "0308010203", "04000141", // truncated literals
+	"0a0061" + "0900", "0a0061" + "2100", "0a0061" + "0500", // copy1: offset 0 → corrupt
+	"0a0061" + "0501", "0a0061" + "1d01", "0a0061" + "0502", // copy1 ok / offset beyond start
+	"0a0061" + "220100", "0a0061" + "22000000", "0a0061" + "230100000000", // copy2, copy4
+	"0a0061" + "2301", "0a0061" + "22", "0af0", "0af400", "0af80000", "0afc000000", // truncated headers
+	"05f00461626364" + "65", "05f404006162636465", "05f8040000" + "6162636465", "05fc04000000" + "6162636465",
+	"ffffffff0f00", "ffffffff1f00", "8080808080808080808001", "80808080808080808080", "808080808000", // length headers
+	"020061", "000061", "0161", // wrong declared length
 }
 
 func main() {
-	dir, _ := os.MkdirTemp("", "vc16")
-	defer os.RemoveAll(dir)
-	o := &chain.BlockDBOpts{MaxCachedBlocks: 2, CompressOnDisk: true}
-	db := open(dir, o)
-	A, B, C := mk(1, 100), mk(2, 200), mk(3, 300)
-	db.BlockAdd(1, A)
-	l, e := db.BlockLength(A.Hash, true)
-	fmt.Println("len queued A", l, e)
-	db.BlockAdd(2, B)
-	db.Idle()
-	l, e = db.BlockLength(A.Hash, true)
-	fmt.Println("len written cached A (decode_if_needed)", l, e)
-	l, e = db.BlockLength(A.Hash, false)
-	fmt.Println("len written cached A (no decode)", l, e)
-	db.BlockInvalid(A.Hash.Hash[:])
-	db.Close()
-	db = open(dir, o)
-	db.BlockAdd(3, C)
-	db.Close()
-	db = open(dir, o)
-	_, _, e = db.BlockGet(B.Hash)
-	fmt.Println("get B:", e)
-	db.Close()
-	es, _ := os.ReadDir(dir)
-	for _, x := range es {
-		fi, _ := x.Info()
-		fmt.Println(x.Name(), fi.Size())
+	child := flag.Bool("snappychild", false, "internal: run only the snappy stream and print a JSON result")
+	r := vlib.NewRun("C16")
+	o, err := vlib.StartOracle("c16")
+	if err != nil {
+		fmt.Fprintln(os.Stderr, "cannot start oracle:", err)
+		os.Exit(3)
+	}
+	defer o.Close()
+
+	if *child {
+		runChild(r, o)
+		return
+	}
+
+	// gocoin prints with println (stderr) and fmt.Println (stdout): keep both out of the report
+	os.MkdirAll(vlib.Root()+"/.work", 0755)
+	if f, err := os.OpenFile(vlib.Root()+"/.work/c16.stderr.log", os.O_CREATE|os.O_TRUNC|os.O_WRONLY, 0644); err == nil {
+		syscall.Dup2(int(f.Fd()), 2)
+	}
+	if dn, err := os.OpenFile(os.DevNull, os.O_WRONLY, 0); err == nil {
+		os.Stdout = dn
+	}
+	finish := func(rule, expl string) {
+		os.Stdout = realStdout
+		r.Finish(rule, expl)
+	}
+
+	x := &runner{r, o}
+	r.Assume = []string{
+		"block hash = double-SHA256 of the first 80 bytes (as LoadBlockIndex recomputes it); no two stored blocks share the first 8 hash bytes (BIdx)",
+		"flush points are the ones the code has: BlockAdd thresholds (1024 blocks / 16 MiB queued), Idle, Close; the removeDatFile goroutine is awaited after every operation",
+		"file system: completed writes are visible to later opens; nobody else touches the directory; legacy file names bl%08d.dat are the ones dat_fname produces for files it creates itself",
+		"gzip-compressed records of old gocoin versions are not generated; AbortNow is false; no crash (C07 covers crashes)",
+		"snappy: Go int is 64 bit; inputs ≤ 4 MB",
+	}
+	rule := "a history = option grid point + 8..58 operations (add/get/len/trusted/invalid/idle/close/reopen) + final restart and read-back of every block; distinct = distinct JSON of the history with more than 2 operations; snappy cases distinct by (kind,size,content hash)"
+
+	if r.Replay != "" {
+		b, err := os.ReadFile(r.Replay)
+		if err != nil {
+			fmt.Fprintln(os.Stderr, err)
+			os.Exit(3)
+		}
+		var doc struct {
+			Replay struct {
+				History *History    `json:"history"`
+				Snappy  *snappyCase `json:"snappy"`
+			} `json:"replay"`
+		}
+		if err := json.Unmarshal(b, &doc); err != nil {
+			fmt.Fprintln(os.Stderr, err)
+			os.Exit(3)
+		}
+		if doc.Replay.History != nil {
+			x.doHistory(doc.Replay.History)
+		}
+		if doc.Replay.Snappy != nil {
+			x.replaySnappy(doc.Replay.Snappy)
+		}
+		finish(rule, "replay of "+r.Replay)
+		return
+	}
+
+	phase := map[string]float64{}
+	r.Extra["phase_seconds"] = phase
+	t0 := time.Now()
+	lap := func(name string) {
+		phase[name] = float64(int(time.Since(t0).Seconds()*100)) / 100
+		t0 = time.Now()
+	}
+	// 1. corpus: hand-made histories (corpus/C16/*.json) — F5 witness, thresholds, roll-over edges
+	files, _ := filepath.Glob(vlib.Root() + "/corpus/C16/*.json")
+	sort.Strings(files)
+	for _, f := range files {
+		b, err := os.ReadFile(f)
+		if err != nil {
+			continue
+		}
+		var h History
+		if json.Unmarshal(b, &h) != nil || len(h.Ops) == 0 {
+			r.TieFail("corpus-unreadable", "cannot parse "+f, f)
+			continue
+		}
+		if strings.Contains(filepath.Base(f), "thorough") && !r.Thorough() {
+			continue
+		}
+		x.doHistory(&h)
+		r.Hit("corpus-history")
+	}
+	for _, h := range builtinHistories(r.Thorough()) {
+		th := time.Now()
+		x.doHistory(h)
+		if d := time.Since(th).Seconds(); d > 1 {
+			phase["corpus:"+h.Name] += float64(int(d*100)) / 100
+		}
+		r.Hit("corpus-history")
+	}
+
+	lap("corpus_histories")
+	// 2. generated histories
+	g := r.Rng
+	n := r.N(260, 6000)
+	for i := 0; i < n; i++ {
+		big := i%10 == 0
+		h := genHistory(g.Fork(), fmt.Sprintf("gen-%d", i), big)
+		x.doHistory(h)
+		if i < 3 {
+			r.Sample(h)
+		}
+		if r.Violations() > 8 {
+			break
+		}
+	}
+
+	lap("generated_histories")
+	// 3. snappy: corpus of malformed inputs, size/kind grid, random + mutated stream (assembly build)
+	failS := func(kind, key, what string, c snappyCase) {
+		rep := map[string]interface{}{"snappy": c}
+		if kind == "prop" {
+			r.PropFail(key, what, rep)
+		} else {
+			r.TieFail(key, what, rep)
+		}
+	}
+	for _, hx := range snappyCorpusDec {
+		b, _ := hex.DecodeString(hx)
+		snappyDecodeCase(o, "corpus", b, failS, r.TieOK, r.Hit)
+		r.Eval("snappy-decode-malformed", "c"+hx)
+	}
+	snappyStream(o, g.Fork(), r.Thorough(), r.N(80, 3000), failS, r.TieOK, r.Hit, r.Eval)
+	r.Sample(map[string]string{"snappy": "Encode/Decode on kinds rand/zero/rep/text/mixed/far × sizes 0..70, 255..257, 2047..2049, 16383..16385, 65520..65554, 131072.., 200000"})
+
+	lap("snappy_asm")
+	// 4. the same snappy stream on the pure-Go encoder/decoder (encode_other.go, decode_other.go): -tags noasm
+	if !pureGo {
+		x.runNoasmChild()
+	}
+	lap("snappy_purego_child")
+	r.Extra["snappy_variants"] = "amd64 assembly (this binary) and pure Go (child built with -tags noasm)"
+
+	finish(rule, "Every operation's observable result (BlockGet bytes+trusted / error class, BlockLength, LoadBlockIndex walk list) is compared between the real chain.BlockDB and the Lean model, the append positions / queue / cache sizes after every operation, and the directory contents (index + every data file, main and oldat) after every Close; independently a plain Go map decides the property itself (stored bytes come back with the latest trusted flag unless marked invalid or out of configured retention; after a restart exactly the stored non-invalid blocks are listed once with height/size/txcount). snappy.Encode output is compared byte-for-byte with the model's encoder, both decoders run on both outputs and on mutated encodings.")
+}
+
+func (x *runner) replaySnappy(c *snappyCase) {
+	failS := func(kind, key, what string, c snappyCase) {
+		rep := map[string]interface{}{"snappy": c}
+		if kind == "prop" {
+			x.r.PropFail(key, what, rep)
+		} else {
+			x.r.TieFail(key, what, rep)
+		}
+	}
+	if c.Enc != "" || c.Src == "" && c.Name == "mutated" {
+		b, _ := hex.DecodeString(c.Enc)
+		snappyDecodeCase(x.o, c.Name, b, failS, x.r.TieOK, x.r.Hit)
+	} else {
+		b, _ := hex.DecodeString(c.Src)
+		snappyRoundTrip(x.o, c.Name, b, failS, x.r.TieOK, x.r.Hit)
+	}
+	x.r.Eval("snappy-replay", c.Name)
+}
+
+func runChild(r *vlib.Run, o *vlib.Oracle) {
+	res := childResult{Hits: map[string]int{}}
+	fail := func(kind, key, what string, c snappyCase) {
+		if len(res.Fails) < 8 {
+			res.Fails = append(res.Fails, struct {
+				Kind, Key, What string
+				Case            snappyCase
+			}{kind, key + "-purego", what + " [pure-Go build, -tags noasm]", c})
+		}
+	}
+	for _, hx := range snappyCorpusDec {
+		b, _ := hex.DecodeString(hx)
+		snappyDecodeCase(o, "corpus", b, fail, func() { res.OK++ }, func(k string) { res.Hits[k]++ })
+		res.Evals++
+	}
+	snappyStream(o, r.Rng.Fork(), r.Thorough(), r.N(80, 3000), fail, func() { res.OK++ }, func(k string) { res.Hits[k]++ },
+		func(kind, key string) { res.Evals++ })
+	js, _ := json.Marshal(res)
+	fmt.Println(string(js))
+}
+
+func (x *runner) runNoasmChild() {
+	r := x.r
+	root := vlib.Root()
+	repo := strings.TrimRight(vtrans.RepoRoot(), "/")
+	suf := ""
+	args := []string{"build"}
+	if repo != "/repo" {
+		suf = "_" + sha1Hex8(repo)
+		mf := root + "/.work/go" + suf + ".mod"
+		if _, err := os.Stat(mf); err == nil {
+			args = append(args, "-modfile="+mf)
+		}
+	}
+	bin := root + "/.work/bin/c16_noasm" + suf
+	args = append(args, "-tags", "verif noasm", "-o", bin, "./cmd/c16")
+	cmd := exec.Command("go", args...)
+	cmd.Dir = root + "/go"
+	cmd.Env = append(os.Environ(), "GOFLAGS=-mod=mod", "GOPROXY=off", "GOSUMDB=off", "GOTOOLCHAIN=local")
+	if out, err := cmd.CombinedOutput(); err != nil {
+		r.TieFail("noasm-build", "the pure-Go (noasm) variant of the harness does not build: "+short(string(out)), "go "+strings.Join(args, " "))
+		return
+	}
+	c := exec.Command(bin, "-snappychild", "-tier", r.Tier)
+	c.Env = os.Environ()
+	out, err := c.Output()
+	var res childResult
+	if err != nil || json.Unmarshal(bytes.TrimSpace(out), &res) != nil {
+		r.TieFail("noasm-run", fmt.Sprintf("the pure-Go snappy run failed: %v %s", err, short(string(out))), bin)
+		return
+	}
+	for k, v := range res.Hits {
+		for i := 0; i < v; i++ {
+			r.Hit("purego:" + k)
+		}
+	}
+	for i := 0; i < res.OK; i++ {
+		r.TieOK()
+	}
+	r.Extra["purego_snappy_evaluations"] = res.Evals
+	for _, f := range res.Fails {
+		rep := map[string]interface{}{"snappy": f.Case, "build": "-tags noasm"}
+		if f.Kind == "prop" {
+			r.PropFail(f.Key, f.What, rep)
+		} else {
+			r.TieFail(f.Key, f.What, rep)
+		}
 	}
 }
